@@ -213,6 +213,8 @@ func c10Run(c *Ctx) {
 					cl, detail := c10Eval(cs)
 					c.Res.Evaluations++
 					c.Res.Executions++
+					c.Res.States++ // one history
+					c.Res.Transitions += int64(len(cur))
 					if len(cur) > 1 {
 						c.Res.Nontrivial++
 					}
